@@ -478,6 +478,13 @@ def program_from_circuit(circ):
         gates = [KIND_OF[g.__name__] for g in op.operations] if kind == "W" else None
         sp = prog.new_op(kind, q, c, gates)
         sp.obj = op
+        if kind == "W" and not isinstance(getattr(op, "noise", []), list):
+            # one noise object for the whole wrapper: unwrap() emits a carrier Identity for it, noise simulation on or off
+            try:
+                after = bool(op.noise.noise_parameters["After gate"])
+            except Exception:
+                after = True
+            sp.noise = ("single", ("annotation", type(op.noise).__name__, after))
         by_node[node] = sp
     for t in ("e", "p", "c"):
         for i in range(len(regs[t])):
